@@ -33,18 +33,19 @@ def parseKind : List String → Option Kind
 def caseLine (c : Case) (ts : List String) : Case :=
   match ts with
   | ["n", n] => { c with n := natD n }
+  | ["nets", k] => { c with nets := natD k }
   | ["cap", k] => { c with cap := natD k }
   | ["link", a, b, l, x] => { c with links := c.links ++ [⟨natD a, natD b, natD l, natD x⟩] }
-  | "fault" :: cs :: s :: r :: rest =>
+  | "fault" :: cs :: s :: r :: net :: rest =>
     match parseKind rest with
     | some k =>
       -- o: scheduled; x: handle cancelled right after the Simulation was built; p: handle cancelled
       -- before the Simulation was built; m: manual Network.partition() call
-      { c with faults := c.faults ++ [⟨k, natD s, optNat r, cs == "x" || cs == "p", cs == "m"⟩],
+      { c with faults := c.faults ++ [⟨k, natD s, optNat r, cs == "x" || cs == "p", cs == "m", natD net⟩],
                preCanc := if cs == "p" then c.faults.length :: c.preCanc else c.preCanc }
     | none => c
   | "job" :: e :: rest => { c with jobs := c.jobs ++ [⟨natD e, parseOps rest⟩] }
-  | ["probe", a, b] => { c with probes := c.probes ++ [⟨natD a, natD b⟩] }
+  | ["probe", a, b, k] => { c with probes := c.probes ++ [⟨natD a, natD b, natD k⟩] }
   | _ => c
 
 def parseCase (body : List String) : Case := body.foldl (fun c l => caseLine c (toks l)) {}
@@ -52,7 +53,7 @@ def parseCase (body : List String) : Case := body.foldl (fun c l => caseLine c (
 def parsePop : List String → Option Pop
   | ["F", t, f, ad] => some (.fault (natD t) (natD f) (ad == "a"))
   | ["C", t, f] => some (.cancel (natD t) (natD f))
-  | ["A", t] => some (.healall (natD t))
+  | ["A", t, k] => some (.healall (natD t) (natD k))
   | ["J", t, j, ac] => some (.job (natD t) (natD j) (ac == "c"))
   | ["S", t, j, k] => some (.sink (natD t) (natD j) (natD k))
   | ["N", t, p, "s"] => some (.nsend (natD t) (natD p))
@@ -63,7 +64,7 @@ def parsePop : List String → Option Pop
 def showPop : Pop → String
   | .fault t f a => s!"F {t} {f} {if a then "a" else "d"}"
   | .cancel t f => s!"C {t} {f}"
-  | .healall t => s!"A {t}"
+  | .healall t k => s!"A {t} {k}"
   | .job t j c => s!"J {t} {j} {if c then "c" else "a"}"
   | .sink t j k => s!"S {t} {j} {k}"
   | .nsend t p => s!"N {t} {p} s"
@@ -154,7 +155,8 @@ def runJudge (body : List String) : List String :=
   let isZ := fun (l : String) => (toks l).take 2 == ["obs", "Z"]
   let obs := (obsLines.filter (!isZ ·)).map parseObs
   let final := (obsLines.find? isZ).bind parseFinal
-  if obsLines == ["obs E unknown-target"] then
+  if !netWF c.faults then ["viol transcript/partition-spans-networks"]
+  else if obsLines == ["obs E unknown-target"] then
     if c.resolves then ["viol schedule/rejected-resolvable-plan"] else ["ok"]
   else if !c.resolves then ["viol schedule/accepted-unknown-target"]
   else if obs.any (·.isNone) then ["viol transcript/malformed"]
